@@ -82,7 +82,12 @@ def gen_cases(rng: Rng, tier):
     for k in range(n):
         kind = kinds[k % len(kinds)]
         if kind == "weights":
-            yield dict(kind=kind, t=[rs(x) for x in _grid(rng, rng.randint(2, 40))])
+            if rng.random() < 0.4:   # uniform grid with an odd number of points: Simpson exactness on cubics
+                m = 2 * rng.randint(1, 12) + 1
+                t = rng.grid(m, lo=rng.choice([0, -1, 3]), scale=rng.choice([1, 2, Fraction(1, 4)]), uniform=True)
+            else:
+                t = _grid(rng, rng.randint(2, 40))
+            yield dict(kind=kind, t=[rs(x) for x in t], cubic=[rs(rng.dyadic(-3, 3, 2)) for _ in range(4)])
         elif kind == "trapz":
             m = rng.randint(2, 40)
             t = _grid(rng, m)
@@ -538,6 +543,18 @@ def oracle(case, impl):
     def bad(clause, msg, entry):
         vs.append(dict(clause=clause, entry=entry, msg=msg))
 
+    if kind == "weights" and "sw" in impl and len(case["t"]) % 2 == 1:
+        tq = _Fv(case["t"])
+        hs = {b - a for a, b in zip(tq, tq[1:])}
+        if len(hs) == 1:   # uniform, odd number of points: the coded Simpson weights integrate cubics exactly
+            c = _Fv(case.get("cubic", ["1", "1", "1", "1"]))
+            f = lambda x: c[0] + c[1] * x + c[2] * x**2 + c[3] * x**3                               # noqa: E731
+            Fa = lambda x: c[0] * x + c[1] * x**2 / 2 + c[2] * x**3 / 3 + c[3] * x**4 / 4            # noqa: E731
+            exact = Fa(tq[-1]) - Fa(tq[0])
+            got = sum(w * float(f(x)) for w, x in zip(impl["sw"], tq))
+            sc = sum(abs(w * float(f(x))) for w, x in zip(impl["sw"], tq)) + 1e-300
+            if abs(got - float(exact)) > 1e-9 * sc:
+                bad("simpson_exact", f"coded Simpson weights on a uniform odd grid give {got} for a cubic whose integral is {float(exact)}", "_integration_weights")
     if kind == "trapz":
         a, b = float(F(case["a"])), float(F(case["b"]))
         t = fl(_Fv(case["t"]))
